@@ -35,6 +35,8 @@ type c17In struct {
 	Pg      bool     `json:"pg,omitempty"`
 	Idiom   bool     `json:"idiom,omitempty"`
 	Wrapped bool     `json:"wrapped,omitempty"`
+	// RootOnly: the input document's only top-level key is literally "root" (and the table is read from it)
+	RootOnly bool `json:"root_only,omitempty"`
 }
 
 type propC17 struct{}
@@ -530,7 +532,9 @@ func c17MetaExpr(r *Rand, depth int, doc *[]c17Seg) {
 	}
 }
 
-func c17MetaDoc(r *Rand, wrapped bool) []c17Seg {
+func c17MetaDoc(r *Rand, wrapped bool) []c17Seg { return c17MetaDocOn(r, wrapped, "t") }
+
+func c17MetaDocOn(r *Rand, wrapped bool, tbl string) []c17Seg {
 	doc := []c17Seg{{K: "raw", S: "SELECT "}}
 	n := r.Range(1, 3)
 	for i := 0; i < n; i++ {
@@ -553,7 +557,6 @@ func c17MetaDoc(r *Rand, wrapped bool) []c17Seg {
 		}
 	}
 	doc = append(doc, c17Seg{K: "raw", S: " FROM "})
-	tbl := "t"
 	if wrapped {
 		doc = append(doc, c17Seg{K: Pick(r, []string{"raw", "dq", "bt"}), S: "root"}, c17Seg{K: "raw", S: "."})
 	}
@@ -631,6 +634,10 @@ func (propC17) Generate(r *Rand, tier string) []Case {
 			for a := 0; a < 2; a++ {
 				for i := 0; i < 30*mul; i++ {
 					add(c17In{Kind: "meta", Doc: c17MetaDoc(r, w == 1), Wrapped: w == 1, Pg: p == 1, Idiom: a == 1}, "stream:meta")
+					if r.Chance(12) {
+						// an input whose only top-level key is "root": Wrapped() must still wrap it
+						add(c17In{Kind: "meta", Doc: c17MetaDocOn(r, w == 1, "root"), Wrapped: w == 1, Pg: p == 1, Idiom: a == 1, RootOnly: true}, "stream:meta", "data:root-only")
+					}
 				}
 			}
 		}
@@ -832,6 +839,10 @@ func (propC17) Observe(raw json.RawMessage) (Observed, error) {
 		}
 		dataA := deepCopy(c17Data).(map[string]any)
 		dataB := deepCopy(c17Data).(map[string]any)
+		if in.RootOnly {
+			dataA = map[string]any{"root": deepCopy(c17Data["t"])}
+			dataB = map[string]any{"root": deepCopy(c17Data["t"])}
+		}
 		if in.Wrapped {
 			dataB = map[string]any{"root": dataB}
 		}
